@@ -14,10 +14,10 @@ def main(ck):
     pr = ck.proof('C02')
     q = ck.quick()
     res = []
-    res += CC.run_stream(ck, 'single-clause', 200 if q else 2500, dict(allow=CLAUSE), dict(depth=1))
-    res += CC.run_stream(ck, 'clause-chain', 250 if q else 3000, dict(allow=CLAUSE), dict())            # chains of 1-4 clauses, nested brackets
-    res += CC.run_stream(ck, 'clause-chain-flat', 150 if q else 2500, dict(allow=CLAUSE | INNER, flat=True), dict())
-    res += CC.run_stream(ck, 'clause-over-expression', 100 if q else 2000, dict(allow=CLAUSE | INNER), dict())
+    res += CC.run_stream(ck, 'single-clause', 80 if q else 2500, dict(allow=CLAUSE), dict(depth=1))
+    res += CC.run_stream(ck, 'clause-chain', 100 if q else 3000, dict(allow=CLAUSE), dict())            # chains of 1-4 clauses, nested brackets
+    res += CC.run_stream(ck, 'clause-chain-flat', 80 if q else 2500, dict(allow=CLAUSE | INNER, flat=True), dict())
+    res += CC.run_stream(ck, 'clause-over-expression', 60 if q else 2000, dict(allow=CLAUSE | INNER), dict())
     CC.report(ck, res)
     ck.cov['rule'] = ('case = (script, input data); non-trivial = model and engine agree on a non-empty result; distinct by (script, data)')
     if not pr['ok'] and not ck.viol:
